@@ -337,3 +337,24 @@ impl JunosOpts {
         &self.ephemeral_db
     }
 }
+
+/// Verification hooks (compiled only with `--cfg bgpfu_verif`): the option structs can otherwise
+/// only be built by the argument parser.
+#[cfg(bgpfu_verif)]
+impl IrrdOpts {
+    pub(crate) fn verif_new(host: &str, port: u16) -> Self {
+        Self {
+            host: host.to_string(),
+            port,
+        }
+    }
+}
+
+#[cfg(bgpfu_verif)]
+impl JunosOpts {
+    pub(crate) fn verif_new(ephemeral_db: &str) -> Self {
+        Self {
+            ephemeral_db: ephemeral_db.to_string(),
+        }
+    }
+}
